@@ -85,12 +85,34 @@ Theorem C06_mtu_abs : forall p e frags id b mtu, 1 <= id <= 255 -> zlen b = 3 ->
 Proof. exact train_abs_within_mtu. Qed.
 Print Assumptions C06_mtu_abs.
 
+(* "... and parses back equal": every packet of a train is a well-formed packet in the sense of C01,
+   with the abs-send-time element on its last packet in either form, so C01_packet_roundtrip applies
+   (payload type below 128, timestamp and SSRC 32-bit: pktz_ok) *)
+Theorem C06_train_wf : forall p, pktz_ok p -> forall frags e, Forall wf_packet (expected_train p e frags).
+Proof. exact train_wf. Qed.
+Print Assumptions C06_train_wf.
+
+Theorem C06_train_abs_wf : forall p e frags id b, pktz_ok p -> 1 <= id <= 255 -> zlen b = 3 ->
+  forall init lastp, expected_train p e frags = init ++ [lastp] ->
+  Forall wf_packet (init ++ [with_abs id b lastp]).
+Proof. exact train_abs_wf. Qed.
+Print Assumptions C06_train_abs_wf.
+
 Example C06_abs_overhead_values : abs_overhead 0 = 12 /\ abs_overhead 14 = 20 /\ abs_overhead 15 = 24 /\ abs_overhead 255 = 24.
 Proof. repeat split. Qed.
 
 Theorem C06_history : forall pay ops p, sane (pz_seq p) -> bounded pay p ops -> history_ok pay p ops.
 Proof. exact history_numbering. Qed.
 Print Assumptions C06_history.
+
+(* timestamps over whole histories: the state's timestamp - which every packet of the next call
+   carries (C06_train) - is the initial one plus the sample counts of all earlier Packetize calls
+   with a non-empty payload (also those for which the payloader returned nothing) plus all skipped
+   samples, modulo 2^32; GeneratePadding and EnableAbsSendTime do not move it *)
+Theorem C06_history_timestamp : forall pay ops p, ts_ok p ->
+  pz_ts (run_ops pay p ops) = (pz_ts p + fold_right Z.add 0 (map ts_delta ops)) mod 4294967296.
+Proof. exact history_timestamp. Qed.
+Print Assumptions C06_history_timestamp.
 
 (* the one-step meaning of history_ok, spelled out *)
 Theorem C06_step : forall pay p o, sane (pz_seq p) -> roc (pz_seq p) + consumed pay p o < 18446744073709551616 ->
